@@ -291,5 +291,8 @@ def meta_markers(context_only: bool = False) -> sched.MarkerSet:
         # build_xsi_cache walks every class of the interpreter: it has its own markers in the main phase
         if name in ("__init__", "get_builder", "get_subclasses", "is_binding_model", "build_xsi_cache") or not inspect.isfunction(fn):
             continue
-        ms.append(sched.Marker(fn, [(r"self\b", "c_access")]))
+        # the methods that hand out entries of the shared type index: EVERY line (and the lambdas / comprehensions in
+        # them) is a yield point - what they do to a list they got from the index is done to shared state
+        every_line = name in ("find_subclass", "find_type", "find_types", "fetch", "is_derived")
+        ms.append(sched.Marker(fn, [(r"\S" if every_line else r"self\b", "c_access")]))
     return sched.MarkerSet(ms)
